@@ -82,7 +82,7 @@ void vll_assert_fail(void* e, void* f, uint32_t l, void* fn){
   printf("VASSERT FAILED debug-assert %s (%s:%u)\n", (char*)e, (char*)f, l); fflush(stdout); exit(1);
 }
 static void* vll_alloc(uint64_t n){ void* p = malloc(n ? n : 1); if (!p) exit(3); return p; }
-#define VLL_FREE(p) free(p)
+#define VLL_FREE(p) ((void)(p))   /* native runs never reuse addresses (as in CBMC, where every allocation is a fresh object) */
 #endif
 
 /* ------------------------------------------------------------------ both modes */
@@ -95,17 +95,29 @@ void vll_guard_release(void* g){ *(uint8_t*)g = 1; }
 void vll_pure_virtual(void){ vassert_at(0, 0); }
 
 /* allocation: failure is outside every claim (pointer assumed non-null) */
+#ifdef VLL_ALIGNED_NEW_HOOK
+/* over-aligned objects (queue nodes, thread contexts) come from a typed static pool owned by the harness */
+void* vh_aligned_new(uint64_t n, uint64_t a); void vh_aligned_delete(void* p);
+void* _ZnwmSt11align_val_t(uint64_t n, uint64_t a){ return vh_aligned_new(n, a); }
+void _ZdlPvSt11align_val_t(void* p, uint64_t a){ vh_aligned_delete(p); }
+void _ZdlPvmSt11align_val_t(void* p, uint64_t n, uint64_t a){ vh_aligned_delete(p); }
+#define VLL_NO_ALIGNED_MODELS 1
+#endif
 #ifndef VLL_NO_ALLOC_MODELS
 void* _Znwm(uint64_t n){ return vll_alloc(n); }
 void* _Znam(uint64_t n){ return vll_alloc(n); }
+#ifndef VLL_NO_ALIGNED_MODELS
 void* _ZnwmSt11align_val_t(uint64_t n, uint64_t a){ return vll_alloc(n); }
+#endif
 void* _ZnamSt11align_val_t(uint64_t n, uint64_t a){ return vll_alloc(n); }
 void _ZdlPv(void* p){ VLL_FREE(p); }
 void _ZdaPv(void* p){ VLL_FREE(p); }
 void _ZdlPvm(void* p, uint64_t n){ VLL_FREE(p); }
 void _ZdaPvm(void* p, uint64_t n){ VLL_FREE(p); }
-void _ZdlPvSt11align_val_t(void* p, uint64_t a){ VLL_FREE(p); }
-void _ZdlPvmSt11align_val_t(void* p, uint64_t n, uint64_t a){ VLL_FREE(p); }
+#ifndef VLL_NO_ALIGNED_MODELS
+void _ZdlPvSt11align_val_t(void* p, uint64_t a){ vra_forget(p, 512); VLL_FREE(p); }
+void _ZdlPvmSt11align_val_t(void* p, uint64_t n, uint64_t a){ vra_forget(p, n); VLL_FREE(p); }
+#endif
 #endif
 
 #ifndef VLL_NO_MAIN
